@@ -28,9 +28,9 @@ func init() {
 		Title:       "A failed storage read is reported and never wedges the segment",
 		Technique:   "static analysis: SSA lockset dataflow (must-release on every return), dominance of every Data.Read result use by its error test, go/cfg error-flow walk over all read-reachable functions",
 		Level:       "Static rules; the lock clause is decided: on every path of every function that takes the segment mutex the lock is released before return, so no fault sequence can leave it held. Every one of the Data.Read call sites is shown to use its slice only behind err == nil and every read error is shown to propagate or be explicitly tolerated. Not a verdict on promptness in the sense of time.",
-		Explanation: "LOCK-RELEASE (path-set lockset dataflow over SSA blocks, defer-aware) proves every return of every locking function releases the mutex; NO-CALLBACK-UNDER-LOCK proves nothing re-entrant runs while it is held; READ-CHECKED (dominator tree) proves the slice of each segment.Data.Read is used only on the nil edge of its error test; ERR-FLOW over the functions reachable from the read API proves every error-returning call is accounted for on every path (returned, wrapped, sentinel, sticky field) with one listed exemption; STATE-AFTER-FALLIBLE proves a reader's cache key (current chunk) is only advanced after the fallible loads of that chunk succeeded, so a failed load is retried rather than leaving a half-loaded chunk marked current.",
+		Explanation: "LOCK-RELEASE (path-set lockset dataflow over SSA blocks, defer-aware) proves every return of every locking function releases the mutex; NO-CALLBACK-UNDER-LOCK proves nothing re-entrant runs while it is held; READ-CHECKED (dominator tree) proves the slice of each segment.Data.Read is used only on the nil edge of its error test; ERR-FLOW over the functions reachable from the read API proves every error-returning call is accounted for on every path (returned, wrapped, sentinel, sticky field) with one listed exemption; STATE-AFTER-FALLIBLE proves a reader's cache key (current chunk) is only advanced after the fallible loads of that chunk succeeded, so a failed load is retried rather than leaving a half-loaded chunk marked current. CACHE-AFTER-CHECK requires that a value from a fallible call is published into a Segment-held cache only on the path where its error was tested nil, so a failed load cannot poison later calls.",
 		NotCovered:  "promptness in the sense of wall-clock time; panics from corrupt (as opposed to unreadable) data; behaviour of dependencies on failing storage",
-		Uses:        []RuleUse{{"LOCK-RELEASE", ""}, {"NO-CALLBACK-UNDER-LOCK", ""}, {"READ-CHECKED", ""}, {"ERR-FLOW", "READ"}, {"STATE-AFTER-FALLIBLE", ""}},
+		Uses:        []RuleUse{{"CACHE-AFTER-CHECK", ""}, {"LOCK-RELEASE", ""}, {"NO-CALLBACK-UNDER-LOCK", ""}, {"READ-CHECKED", ""}, {"ERR-FLOW", "READ"}, {"STATE-AFTER-FALLIBLE", ""}},
 	})
 
 	prop(&Property{
@@ -38,25 +38,25 @@ func init() {
 		Title:       "Stored fields of a document are returned exactly and only for that document",
 		Technique:   "static analysis: SSA pattern/dominance rules (clamped look-ahead slices, numDocs guard, visitor-controlled loop) and folded-constant agreement of the block size between writers and reader",
 		Level:       "Static rules deciding named necessary conditions (no un-clamped look-ahead into the decompressed block, every access behind num < numDocs, the visitor's result alone controls the loop, writers and reader use the same block size). Partial: grouping/order of values and the re-encode arithmetic are value properties and not decided.",
-		Explanation: "LOOKAHEAD-CLAMP enumerates every []byte slice expression whose upper bound is offset+constant and requires the bound to be clamped by a comparison with len/cap of the same buffer (siblings copyStoredDocs and getDocStoredOffsets are both covered); VISIT-GUARD proves by dominance that every read and every visitor call in visitDocument is behind num < footer.numDocs and that the loop variable is defined only by the visitor's result; BLOCK-SELECT folds the constant passed to newChunkedDocumentCoder by both writers and the reader's divisor and requires them equal.",
+		Explanation: "LOOKAHEAD-CLAMP enumerates every []byte slice expression whose upper bound is offset+constant and requires the bound to be clamped by a comparison with len/cap of the same buffer (siblings copyStoredDocs and getDocStoredOffsets are both covered); VISIT-GUARD proves by dominance that every read and every visitor call in visitDocument is behind num < footer.numDocs and that the loop variable is defined only by the visitor's result; BLOCK-SELECT folds the constant passed to newChunkedDocumentCoder by both writers and the reader's divisor and requires them equal. ITER-SCRATCH shows that on every path through one document iteration the meta buffer is Reset and the data slice restarted before the record is added; SCRATCH-OWNED covers the decompression buffers.",
 		NotCovered:  "grouping and order of delivered values, correctness of the merge re-encode and of the byte-copy path arithmetic",
-		Uses:        []RuleUse{{"LOOKAHEAD-CLAMP", ""}, {"VISIT-GUARD", ""}, {"BLOCK-SELECT", ""}, {"STORED-OFFSET-SOURCE", ""}, {"BLOCK-CURSOR", ""}, {"LOOP-BOUND-AGREE", ""}, {"RESET-COMPLETE", ""}, {"ESCAPE-FRESH", ""}},
+		Uses:        []RuleUse{{"ITER-SCRATCH", ""}, {"SCRATCH-OWNED", ""}, {"LOOKAHEAD-CLAMP", ""}, {"VISIT-GUARD", ""}, {"BLOCK-SELECT", ""}, {"STORED-OFFSET-SOURCE", ""}, {"BLOCK-CURSOR", ""}, {"LOOP-BOUND-AGREE", ""}, {"RESET-COMPLETE", ""}, {"ESCAPE-FRESH", ""}},
 	})
 	prop(&Property{
 		ID:          "C08",
 		Title:       "Dictionaries enumerate exactly the live terms, in order, with true counts",
 		Technique:   "static analysis: SSA typestate/dominance rules (init-before-read of the scratch postings list, nil-result and nil-field discipline, insert guard, 1-hit awareness)",
 		Level:       "Static rules deciding named necessary conditions of the count/never-panic clauses. Partial: FST range/automaton semantics and term order live in vellum and are not analysed.",
-		Explanation: "INIT-BEFORE-READ proves every PostingsList.read receiver is a freshly re-initialised list (so a count can never inherit the 1-hit flag of the previous term); NIL-RESULT derives the functions that may return (nil,nil) and proves every dereference or escaping interface conversion of such a result crossed a nil test on all paths (unknown field => emptyDictionary, never a nil pointer in an interface); NIL-FIELD proves every method call on Dictionary.fst/fstReader is dominated by a nil test; INSERT-GUARD proves terms are inserted only with postingsOffset>0 and writePostings returns 0 for empty bitmaps; ONEHIT-AWARE proves every content use of PostingsList.postings also dispatches on normBits1Hit.",
+		Explanation: "INIT-BEFORE-READ proves every PostingsList.read receiver is a freshly re-initialised list (so a count can never inherit the 1-hit flag of the previous term); NIL-RESULT derives the functions that may return (nil,nil) and proves every dereference or escaping interface conversion of such a result crossed a nil test on all paths (unknown field => emptyDictionary, never a nil pointer in an interface); NIL-FIELD proves every method call on Dictionary.fst/fstReader is dominated by a nil test; INSERT-GUARD proves terms are inserted only with postingsOffset>0 and writePostings returns 0 for empty bitmaps; ONEHIT-AWARE proves every content use of PostingsList.postings also dispatches on normBits1Hit. DICT-SEALED shows a Dictionary is written only while under construction (provenance Fresh), so several iterators / postings lists of one Dictionary share no mutable state.",
 		NotCovered:  "vellum FST range/automaton semantics, term order, numeric correctness of counts under exclusion bitmaps",
-		Uses:        []RuleUse{{"INIT-BEFORE-READ", ""}, {"NIL-RESULT", ""}, {"NIL-FIELD", ""}, {"INSERT-GUARD", ""}, {"ONEHIT-AWARE", ""}, {"PARALLEL-APPEND", ""}, {"TERM-BOUNDARY", ""}, {"ENUM-SKIP-GUARD", ""}, {"SINGLETON-GUARD", ""}},
+		Uses:        []RuleUse{{"DICT-SEALED", ""}, {"INIT-BEFORE-READ", ""}, {"NIL-RESULT", ""}, {"NIL-FIELD", ""}, {"INSERT-GUARD", ""}, {"ONEHIT-AWARE", ""}, {"PARALLEL-APPEND", ""}, {"TERM-BOUNDARY", ""}, {"ENUM-SKIP-GUARD", ""}, {"SINGLETON-GUARD", ""}},
 	})
 	prop(&Property{
 		ID:          "C18",
 		Title:       "DocsMatchingTerms returns exactly the union of the listed terms' documents",
 		Technique:   "static analysis: SSA dominance rules (nil-result discipline at the dictionary lookup, 1-hit awareness of OrInto, field-cache reload condition)",
 		Level:       "Static rules deciding named necessary conditions (never a nil dereference for unknown fields, both encodings reach the union, the cached dictionary is replaced whenever the field changes). Partial: set equality itself is a value property.",
-		Explanation: "NIL-RESULT covers the (*Segment).dictionary call in DocsMatchingTerms (path-sensitive, phi-aware: the cached dictionary variable is a loop phi); ONEHIT-AWARE covers OrInto; FIELD-CACHE proves the dictionary reload is control-dependent on thisField != lastField and that lastField and the cached dictionary are updated together on that path only.",
+		Explanation: "NIL-RESULT covers the (*Segment).dictionary call in DocsMatchingTerms (path-sensitive, phi-aware: the cached dictionary variable is a loop phi); ONEHIT-AWARE covers OrInto; FIELD-CACHE proves the dictionary reload is control-dependent on thisField != lastField and that lastField and the cached dictionary are updated together on that path only. ONEHIT-AWARE treats handing the bitmap on (returning, storing) like a content use: a 1-hit list has no bitmap.",
 		NotCovered:  "equality of the returned set with the union (value property)",
 		Uses:        []RuleUse{{"NIL-RESULT", ""}, {"NIL-FIELD", ""}, {"ONEHIT-AWARE", ""}, {"FIELD-CACHE", ""}, {"TERM-BOUNDARY", ""}, {"SINGLETON-GUARD", ""}},
 	})
@@ -68,9 +68,9 @@ func init() {
 		Title:       "A segment is safe for concurrent and re-entrant readers, also during a merge",
 		Technique:   "static analysis: write census over all API-reachable functions + field-based provenance classes (what memory a write can reach) + lockset must-held regions + sync.Once/sync.Pool idiom rules",
 		Level:       "Static rules; write-side race freedom is decided: no function reachable from the read API or a merge writes memory another reader of the same segment can reach, except under the segment mutex or sync.Once — for every schedule and every nesting. Sound under the dependency table (zstd EncodeAll/DecodeAll stateless, vellum FST readers concurrent-safe, Data.Read does not write).",
-		Explanation: "SHARED-WRITE enumerates every write (field/element/map/whole-object store, destination-argument call) in every function reachable from the API roots, classifies the written object with an interprocedural field-based provenance analysis (Fresh / Caller / SharedSegment / Global / SegmentData) and requires shared targets to be written only with the mutex must-held or inside Once.Do; the fields written under the lock form the guarded set whose reads must hold the lock too. CLONE-DISCIPLINE derives the receiver-mutating docValueReader methods and proves each call site's receiver is a private clone. ZSTD-STATELESS, POOL-SCRATCH, NO-CALLBACK-UNDER-LOCK and SINGLETON-GUARD cover the shared codec, the per-call scratch context, re-entrancy under the lock and the shared empty singletons.",
+		Explanation: "SHARED-WRITE enumerates every write (field/element/map/whole-object store, destination-argument call) in every function reachable from the API roots, classifies the written object with an interprocedural field-based provenance analysis (Fresh / Caller / SharedSegment / Global / SegmentData) and requires shared targets to be written only with the mutex must-held or inside Once.Do; the fields written under the lock form the guarded set whose reads must hold the lock too. CLONE-DISCIPLINE derives the receiver-mutating docValueReader methods and proves each call site's receiver is a private clone. ZSTD-STATELESS, POOL-SCRATCH, NO-CALLBACK-UNDER-LOCK and SINGLETON-GUARD cover the shared codec, the per-call scratch context, re-entrancy under the lock and the shared empty singletons. DICT-SEALED and SEG-IMMUT extend this to state kept in a Dictionary or newly cached in a Segment (a lazily cached helper object is shared by every reader even when its insertion is locked); SCRATCH-OWNED shows no two readers cache data in one buffer.",
 		NotCovered:  "races inside dependencies; value equivalence of concurrent and sequential observations beyond what absence of shared mutable state implies",
-		Uses:        []RuleUse{{"SHARED-WRITE", ""}, {"CLONE-DISCIPLINE", ""}, {"ZSTD-STATELESS", ""}, {"POOL-SCRATCH", ""}, {"NO-CALLBACK-UNDER-LOCK", ""}, {"SINGLETON-GUARD", ""}},
+		Uses:        []RuleUse{{"SEG-IMMUT", ""}, {"SCRATCH-OWNED", ""}, {"DICT-SEALED", ""}, {"SHARED-WRITE", ""}, {"CLONE-DISCIPLINE", ""}, {"ZSTD-STATELESS", ""}, {"POOL-SCRATCH", ""}, {"NO-CALLBACK-UNDER-LOCK", ""}, {"SINGLETON-GUARD", ""}},
 	})
 	prop(&Property{
 		ID:          "C15",
@@ -101,7 +101,7 @@ func init() {
 		Title:       "Collection statistics describe the documents actually in the segment",
 		Technique:   "static analysis: provenance of the statistics maps (lane identification) + unit classification of every accumulated increment + SSA structural checks of record order, decode order, accessors and Merge",
 		Level:       "Static rules deciding named necessary conditions: which quantity is accumulated into which statistic (units), that the two lanes never cross anywhere between builder/merger, file record, loader, Segment fields and CollectionStats, and that Merge adds component-wise unconditionally. Partial: that the sums are numerically right for a given input is a value property.",
-		Explanation: "STAT-UNITS identifies the maps of the two lanes from the arguments of persistFields and the stores to Segment.fieldDocs/fieldFreqs (provenance of map creation sites), then classifies the increment of every MapUpdate on them: the frequency lane must add Field.Length()/Posting.Frequency(), the document lane 1 per element of a per-document set or the tracker's cardinality. STAT-LANES checks the record order in persistFields, the decode order in loadFields, initSegmentBase's parameter-to-field mapping, the three CollectionStats fields and accessors, unconditional component-wise Merge, and that the merger clears the per-field document tracker before use on every path. ESCAPE-FRESH shows the statistics maps a built Segment keeps are fresh allocations on every path of the pooled builder (never kept, emptied or re-used from an earlier batch), so a later build cannot rewrite the statistics of an earlier segment.",
+		Explanation: "STAT-UNITS identifies the maps of the two lanes from the arguments of persistFields and the stores to Segment.fieldDocs/fieldFreqs (provenance of map creation sites), then classifies the increment of every MapUpdate on them: the frequency lane must add Field.Length()/Posting.Frequency(), the document lane 1 per element of a per-document set or the tracker's cardinality. STAT-LANES checks the record order in persistFields, the decode order in loadFields, initSegmentBase's parameter-to-field mapping, the three CollectionStats fields and accessors, unconditional component-wise Merge, and that the merger clears the per-field document tracker before use on every path. ESCAPE-FRESH shows the statistics maps a built Segment keeps are fresh allocations on every path of the pooled builder (never kept, emptied or re-used from an earlier batch), so a later build cannot rewrite the statistics of an earlier segment. STAT-UNITS also requires that merged statistics are keyed by the merged field index, never by an input segment's own field id.",
 		NotCovered:  "numeric correctness of the sums for particular inputs/deletions (value property)",
 		Uses:        []RuleUse{{"STAT-UNITS", ""}, {"STAT-LANES", ""}, {"TAIL-READ-BOUNDED", ""}, {"ESCAPE-FRESH", ""}},
 	})
@@ -113,9 +113,9 @@ func init() {
 		Title:       "Merge reports a correct old-to-new document number mapping",
 		Technique:   "static analysis: SSA path enumeration over one iteration of the remap loops (exactly-once store, sentinel on the drops edge, counter +1), phi-aware definedness of the returned map, def-use checks of publication and counting",
 		Level:       "Static rules deciding the shape of the map for every input: one table per input segment of that segment's length, filled exactly once per document with the sentinel or a consecutive counter threaded across segments, defined on every success path (incl. zero survivors), published by the Merger, survivor count from the bitmaps. Partial: that content is found at the reported number is a value property (its structural part is REMAP under C02).",
-		Explanation: "DOCNUMS-DEFINED: phi-aware check that no nil-error return of mergeToWriter carries a nil map. DOCNUMS-SHAPE: enumerates every acyclic path through one iteration of the per-document loop (mergeStoredAndRemapSegment) and of the per-segment loop (mergeStoredAndRemap): exactly one store table[docNum] per path, the sentinel exactly on the drops.Contains edge with the counter unchanged, otherwise the counter which advances by exactly one; each segment iteration fills then appends exactly one make([]uint64, seg.footer.numDocs); counter threaded from 0 through the fill loop / callee result; zero-survivor branch builds all-dropped tables. DOCNUMS-PUBLISHED: Merger.WriteTo stores merge's result into the field DocumentNumbers returns; Merge/merge pass every segment and the caller's drops unchanged; docDropped folds to MaxInt64; footer.numDocs = computeNewDocCount. STORED-OFFSET-SOURCE: every stored-offset index entry is coder.Size() taken right before coder.Add of the same document.",
+		Explanation: "DOCNUMS-DEFINED: phi-aware check that no nil-error return of mergeToWriter carries a nil map. DOCNUMS-SHAPE: enumerates every acyclic path through one iteration of the per-document loop (mergeStoredAndRemapSegment) and of the per-segment loop (mergeStoredAndRemap): exactly one store table[docNum] per path, the sentinel exactly on the drops.Contains edge with the counter unchanged, otherwise the counter which advances by exactly one; each segment iteration fills then appends exactly one make([]uint64, seg.footer.numDocs); counter threaded from 0 through the fill loop / callee result; zero-survivor branch builds all-dropped tables. DOCNUMS-PUBLISHED: Merger.WriteTo stores merge's result into the field DocumentNumbers returns; Merge/merge pass every segment and the caller's drops unchanged; docDropped folds to MaxInt64; footer.numDocs = computeNewDocCount. STORED-OFFSET-SOURCE: every stored-offset index entry is coder.Size() taken right before coder.Add of the same document. EMPTY-SAFE (expected count zero, exercised by a control) forbids constant indexing of a variable-length table without a length test — zero-document segments are valid inputs.",
 		NotCovered:  "that the content of a surviving document is found at its reported number (value property); bitmaps that violate the input contract",
-		Uses:        []RuleUse{{"DOCNUMS-DEFINED", ""}, {"DOCNUMS-SHAPE", ""}, {"DOCNUMS-PUBLISHED", ""}, {"STORED-OFFSET-SOURCE", ""}, {"REMAP-TABLE-READONLY", ""}, {"FASTPATH-GUARD", ""}},
+		Uses:        []RuleUse{{"EMPTY-SAFE", ""}, {"DOCNUMS-DEFINED", ""}, {"DOCNUMS-SHAPE", ""}, {"DOCNUMS-PUBLISHED", ""}, {"STORED-OFFSET-SOURCE", ""}, {"REMAP-TABLE-READONLY", ""}, {"FASTPATH-GUARD", ""}},
 	})
 }
 
@@ -125,9 +125,9 @@ func init() {
 		Title:       "Reusing iterators, postings lists and readers never changes results",
 		Technique:   "static analysis: store census per re-initialiser (every field of every reusable struct re-established or listed with a reason), SSA typestate (init-before-read), must-store-before-successful-return for chunk caches, provenance-based singleton guard",
 		Level:       "Static rules showing that no state CAN carry over from a previous use — the structural content of the property — for every sequence of lookups: each reusable struct's re-initialiser is checked field by field (fail-closed on new fields). Equality of results itself is a value property and is not decided.",
-		Explanation: "RESET-COMPLETE checks the re-initialisers of PostingsList, PostingsIterator, chunkedIntDecoder, docValueReader (cloneInto), chunkedIntCoder, chunkedContentCoder, interim, docVisitState and visitDocumentCtx: whole-struct clear + only sanitised restores, or every field stored/Reset on every path, whole-range zeroing of retained slices. INIT-BEFORE-READ shows a postings list is always re-initialised before read(). CACHE-COHERENT shows every chunk loader re-establishes all chunk-derived fields before a successful return, STATE-AFTER-FALLIBLE that it does so only after the fallible steps. SINGLETON-GUARD shows writes can never reach the shared empty singletons.",
+		Explanation: "RESET-COMPLETE checks the re-initialisers of PostingsList, PostingsIterator, chunkedIntDecoder, docValueReader (cloneInto), chunkedIntCoder, chunkedContentCoder, interim, docVisitState and visitDocumentCtx: whole-struct clear + only sanitised restores, or every field stored/Reset on every path, whole-range zeroing of retained slices. INIT-BEFORE-READ shows a postings list is always re-initialised before read(). CACHE-COHERENT shows every chunk loader re-establishes all chunk-derived fields before a successful return, STATE-AFTER-FALLIBLE that it does so only after the fallible steps. SINGLETON-GUARD shows writes can never reach the shared empty singletons. REUSED-POSTING (the reused Posting is fully re-established per call) and SCRATCH-OWNED (a decompression result is cached only by the owner of its destination buffer) cover two more carriers of state between uses.",
 		NotCovered:  "equality of results with fresh objects (value property); correctness of what the re-initialised object then computes",
-		Uses:        []RuleUse{{"RESET-COMPLETE", ""}, {"INIT-BEFORE-READ", ""}, {"CACHE-COHERENT", ""}, {"STATE-AFTER-FALLIBLE", ""}, {"SINGLETON-GUARD", ""}, {"BITMAP-OWNERSHIP", ""}},
+		Uses:        []RuleUse{{"SCRATCH-OWNED", ""}, {"RESET-COMPLETE", ""}, {"INIT-BEFORE-READ", ""}, {"CACHE-COHERENT", ""}, {"STATE-AFTER-FALLIBLE", ""}, {"SINGLETON-GUARD", ""}, {"BITMAP-OWNERSHIP", ""}, {"REUSED-POSTING", ""}},
 	})
 	prop(&Property{
 		ID:          "C14",
@@ -136,7 +136,7 @@ func init() {
 		Level:       "Static rules showing the pooled builder state cannot influence a later build and concurrent builds share nothing mutable: every field reset or entry-assigned, every re-extension exposes only sanitised/overwritten elements, escaping fields re-established fresh, Put only after a successful reset, map iteration order cannot reach the output, no global writes. Byte equality itself and determinism of dependencies are not decided.",
 		Explanation: "RESET-COMPLETE(interim) over all fields of the builder state; RE-EXTENSION over every s.F = s.F[:n] site of a pooled slice; ESCAPE-FRESH for the fields and bytes that escape into the returned Segment; POOL-DISCIPLINE for interimPool.Put; CARRIED-ESTIMATE shows the only deliberately surviving values reach nothing but a buffer size hint; MAP-ORDER shows every range over a map on the build/merge path has an order-insensitive body; NO-GLOBAL-STATE shows no function reachable from New writes package-level state.",
 		NotCovered:  "byte equality itself; determinism of vellum/roaring/zstd",
-		Uses:        []RuleUse{{"RESET-COMPLETE", ""}, {"RE-EXTENSION", ""}, {"ESCAPE-FRESH", ""}, {"POOL-DISCIPLINE", ""}, {"CARRIED-ESTIMATE", ""}, {"NO-GLOBAL-STATE", ""}, {"MAP-ORDER", ""}},
+		Uses:        []RuleUse{{"ITER-SCRATCH", ""}, {"RESET-COMPLETE", ""}, {"RE-EXTENSION", ""}, {"ESCAPE-FRESH", ""}, {"POOL-DISCIPLINE", ""}, {"CARRIED-ESTIMATE", ""}, {"NO-GLOBAL-STATE", ""}, {"MAP-ORDER", ""}},
 	})
 }
 
@@ -146,16 +146,16 @@ func init() {
 		Title:       "Every segment ice writes can be loaded back and reads identically",
 		Technique:   "static analysis: wire-signature extraction (AST + go/types) of every writer/reader pair and their comparison; must-pass-through (SSA dominance) of section emitters against loader guards; adjacency and memory-image def-use checks",
 		Level:       "Static rules deciding agreement clauses for every input: the writer and the reader of each of the 11 on-disk records use the same sequence of primitives (kinds, widths, loop structure, byte order; tail-first trailers reversed), every section the loader parses is present on every writer path or skipped under a condition the loader also tests, layout adjacency assumptions hold, the in-memory image is the written bytes, WriteTo returns data+footer length. Partial: identical ANSWERS after load are a value property.",
-		Explanation: "WIRE-AGREE extracts, from the type-checked AST, the source-ordered sequence of wire primitives (binary.Write/PutUvarint/writeUvarints/PutUintN/raw Write vs binary.Uvarint/UintN/raw Data.Read) of each writer and reader region with loops as nested units and compares the 11 pairs (builder and merger writers must also agree with each other; footer fields must correspond by name; parseFooter's offsets must form a contiguous tail of footerLen bytes with widths matching their decodes). SECTION-PRESENT proves by dominance that load() always runs the three section loaders and that each section is written on every successful path of both data-section writers, or skipped exactly on the zero-document branch the loader also guards. ADJACENCY, MEM-IMAGE and LEN-RETURN pin the implicit layout assumptions, the builder's memory image and the byte counts.",
+		Explanation: "WIRE-AGREE extracts, from the type-checked AST, the source-ordered sequence of wire primitives (binary.Write/PutUvarint/writeUvarints/PutUintN/raw Write vs binary.Uvarint/UintN/raw Data.Read) of each writer and reader region with loops as nested units and compares the 11 pairs (builder and merger writers must also agree with each other; footer fields must correspond by name; parseFooter's offsets must form a contiguous tail of footerLen bytes with widths matching their decodes). SECTION-PRESENT proves by dominance that load() always runs the three section loaders and that each section is written on every successful path of both data-section writers, or skipped exactly on the zero-document branch the loader also guards. ADJACENCY, MEM-IMAGE and LEN-RETURN pin the implicit layout assumptions, the builder's memory image and the byte counts. EMPTY-SAFE forbids constant indexing of variable-length tables without a length test (empty segments must load and merge).",
 		NotCovered:  "identical answers after load (value property); file-backed vs memory-backed look-ahead near the end of data (layout arithmetic)",
-		Uses:        []RuleUse{{"WIRE-AGREE", ""}, {"SECTION-PRESENT", ""}, {"ADJACENCY", ""}, {"MEM-IMAGE", ""}, {"LEN-RETURN", ""}, {"TAIL-READ-BOUNDED", ""}, {"DV-SECTION-COMPLETE", ""}, {"PER-FIELD-COMPLETE", ""}, {"ESCAPE-FRESH", ""}},
+		Uses:        []RuleUse{{"EMPTY-SAFE", ""}, {"WIRE-AGREE", ""}, {"SECTION-PRESENT", ""}, {"ADJACENCY", ""}, {"MEM-IMAGE", ""}, {"LEN-RETURN", ""}, {"TAIL-READ-BOUNDED", ""}, {"DV-SECTION-COMPLETE", ""}, {"PER-FIELD-COMPLETE", ""}, {"ESCAPE-FRESH", ""}},
 	})
 	prop(&Property{
 		ID:          "C10",
 		Title:       "On-disk format version 2 stays readable across code versions",
 		Technique:   "static analysis: re-extraction of the format table (folded constants at use sites, wire signatures, codec, CRC polynomial, dependency versions) from the current tree and semantic comparison with a golden table extracted from the pinned reference tree",
 		Level:       "Static freeze of the format: every layout-defining constant (by folded value at its use site), every writer's and reader's primitive sequence incl. byte order and carried fields, the codec, the CRC polynomial and the versions of the embedded serialisations equal the pinned reference. Detects symmetric writer+reader changes that round-trip. Partial: arithmetic inside encoders beyond its constants, and roaring/vellum/zstd serialisations (pinned by go.mod, compared) are not analysed.",
-		Explanation: "FMT-CONST compares 27 named format constants, ~35 use-site constants (block size 128 at both coders and the reader's divisor; doc-value chunk arguments (1024,0,0) at three sites; chunk mode 1025 at New/merge; getChunkSize's bounds; bit-level encoder constants; termSeparator 0xff) and the roaring/vellum/compress versions with golden/format_v2.json. FMT-SEQ compares the wire signature of 33 writer/reader functions with the golden ones (this catches symmetric changes WIRE-AGREE accepts by construction). FMT-CODEC pins zstd EncodeAll/DecodeAll as the only codec; CRC-UPDATE pins CRC-32 IEEE. The compression level is reported, not gated (any level is readable by the reference reader).",
+		Explanation: "FMT-CONST compares 27 named format constants, ~35 use-site constants (block size 128 at both coders and the reader's divisor; doc-value chunk arguments (1024,0,0) at three sites; chunk mode 1025 at New/merge; getChunkSize's bounds; bit-level encoder constants; termSeparator 0xff) and the roaring/vellum/compress versions with golden/format_v2.json. FMT-SEQ compares the wire signature of 33 writer/reader functions with the golden ones (this catches symmetric changes WIRE-AGREE accepts by construction). FMT-CODEC pins zstd EncodeAll/DecodeAll as the only codec; CRC-UPDATE pins CRC-32 IEEE. The compression level is reported, not gated (any level is readable by the reference reader). Optional emissions of writers ({…}) are part of the compared signature: an early successful return before an emission makes the rest optional, exactly like an if-block.",
 		NotCovered:  "roaring/vellum serialisation internals (versions pinned and compared); the arithmetic of the encoders beyond their constants",
 		Uses:        []RuleUse{{"FMT-CONST", ""}, {"FMT-SEQ", ""}, {"FMT-CODEC", ""}, {"CRC-UPDATE", ""}, {"WIRE-AGREE", ""}, {"DV-SEPARATOR", ""}},
 	})
@@ -178,16 +178,16 @@ func init() {
 		Level:       "Static rules deciding named NECESSARY conditions: every document number written is the remapped one, location field ids use the merged map, doc values are re-added under new numbers and dropped ones skipped, the parallel per-iterator slices come from one filtered result, the byte-copy path is taken only for identical field lists without deletions, 1-hit encoding only under its full conjunction, chunk size from the footer quantities, terms inserted only with postings. Observational equality with a rebuild is a value property and is NOT decided.",
 		Explanation: "REMAP (mergeTermFreqNormLocs, buildMergedDocVals visitor, persistMergedRestField), CHUNK-AGREE (prepareNewTerm traced through its unique call chain to the values stored in the merged footer), LENPREFIX-AGREE, FASTPATH-GUARD (+ mergeFields compares every field of every segment), INSERT-GUARD, ONEHIT-GUARD, FIELD-ORDER (mergeFields), STORED-OFFSET-SOURCE, FIELDID-LANE, DV-SECTION-COMPLETE.",
 		NotCovered:  "k-way enumeration order, the re-encoding arithmetic, correctness of the stored-field byte copy (values)",
-		Uses:        []RuleUse{{"REMAP", ""}, {"CHUNK-AGREE", ""}, {"LENPREFIX-AGREE", ""}, {"FASTPATH-GUARD", ""}, {"INSERT-GUARD", ""}, {"ONEHIT-GUARD", ""}, {"FIELD-ORDER", ""}, {"STORED-OFFSET-SOURCE", ""}, {"BLOCK-CURSOR", ""}, {"FIELDID-LANE", ""}, {"DV-SECTION-COMPLETE", ""}, {"PER-FIELD-COMPLETE", ""}, {"LOOP-BOUND-AGREE", ""}, {"PARALLEL-APPEND", ""}, {"REMAP-TABLE-READONLY", ""}, {"TERM-BOUNDARY", ""}, {"ENUM-SKIP-GUARD", ""}, {"RESET-COMPLETE", ""}},
+		Uses:        []RuleUse{{"ITER-SCRATCH", ""}, {"REMAP", ""}, {"CHUNK-AGREE", ""}, {"LENPREFIX-AGREE", ""}, {"FASTPATH-GUARD", ""}, {"INSERT-GUARD", ""}, {"ONEHIT-GUARD", ""}, {"FIELD-ORDER", ""}, {"STORED-OFFSET-SOURCE", ""}, {"BLOCK-CURSOR", ""}, {"FIELDID-LANE", ""}, {"DV-SECTION-COMPLETE", ""}, {"PER-FIELD-COMPLETE", ""}, {"LOOP-BOUND-AGREE", ""}, {"PARALLEL-APPEND", ""}, {"REMAP-TABLE-READONLY", ""}, {"TERM-BOUNDARY", ""}, {"ENUM-SKIP-GUARD", ""}, {"RESET-COMPLETE", ""}},
 	})
 	prop(&Property{
 		ID:          "C07",
 		Title:       "Doc values return exactly each document's terms for the requested fields",
 		Technique:   "static analysis: constant folding at the three chunk-size sites, SSA def-use rules for separator/payload identity, section completeness, chunk index, per-segment field-id lane, clone discipline and chunk-cache coherence — structural necessary conditions only",
 		Level:       "Static rules deciding named NECESSARY conditions: writers and reader chunk doc values by the same constant, the chunk index is docNum/that constant, terms are stored unmodified followed by the separator the reader splits on, every recorded section has its trailer, the chunk cache is coherent across chunk switches, per-segment readers are indexed by that segment's field id, merged doc values are re-added under new numbers. Which terms a document gets back (binary search, ordering) is a value property and is NOT decided.",
-		Explanation: "DV-FACTOR-AGREE, CHUNK-INDEX (content coder), DV-SEPARATOR, DV-SECTION-COMPLETE, FIELDID-LANE, REMAP (DV-REMAP part), CLONE-DISCIPLINE, CACHE-COHERENT, RESET-COMPLETE (cloneInto) and the two doc-value pairs of WIRE-AGREE.",
+		Explanation: "DV-FACTOR-AGREE, CHUNK-INDEX (content coder), DV-SEPARATOR, DV-SECTION-COMPLETE, FIELDID-LANE, REMAP (DV-REMAP part), CLONE-DISCIPLINE, CACHE-COHERENT, RESET-COMPLETE (cloneInto) and the two doc-value pairs of WIRE-AGREE. SCRATCH-OWNED shows a decompressed chunk is cached only by the reader owning the destination buffer; DV-SECTION-COMPLETE also requires the start offset to be captured before any byte of the section can be written (progressive chunk writes included).",
 		NotCovered:  "the header binary search, chunk-cache logic across visiting orders beyond coherence, sorted term order (values)",
-		Uses:        []RuleUse{{"DV-FACTOR-AGREE", ""}, {"CHUNK-INDEX", ""}, {"DV-SEPARATOR", ""}, {"DV-SECTION-COMPLETE", ""}, {"FIELDID-LANE", ""}, {"REMAP", ""}, {"CLONE-DISCIPLINE", ""}, {"CACHE-COHERENT", ""}, {"WIRE-AGREE", ""}, {"RESET-COMPLETE", ""}, {"RE-EXTENSION", ""}, {"STATE-AFTER-FALLIBLE", ""}},
+		Uses:        []RuleUse{{"SCRATCH-OWNED", ""}, {"DV-FACTOR-AGREE", ""}, {"CHUNK-INDEX", ""}, {"DV-SEPARATOR", ""}, {"DV-SECTION-COMPLETE", ""}, {"FIELDID-LANE", ""}, {"REMAP", ""}, {"CLONE-DISCIPLINE", ""}, {"CACHE-COHERENT", ""}, {"WIRE-AGREE", ""}, {"RESET-COMPLETE", ""}, {"RE-EXTENSION", ""}, {"STATE-AFTER-FALLIBLE", ""}},
 	})
 }
 
@@ -197,8 +197,8 @@ func init() {
 		Title:       "Postings iterators navigate correctly under Next/Advance, exclusions and flags",
 		Technique:   "static analysis: SSA agreement rules between the stream writers and the iterator's read and skip paths (per-posting arity, byte-count prefix), flag-guarded decoder use (interprocedural), sticky end of iteration, Count/exclusion shape — structural necessary conditions only",
 		Level:       "Static rules deciding named NECESSARY conditions of navigation: the read path and both skip paths consume exactly what the writer emits per posting in each stream, locations are skipped by the recorded byte count, no flag combination reaches a missing decoder, the 1-hit cursor is consumed on every return, an exhausted cursor is never advanced, Count subtracts the excluded intersection, exclusions are applied into a fresh bitmap. WHICH posting Next/Advance(d) returns for a given history is a relation over runtime cursor values and is NOT decided.",
-		Explanation: "ENTRY-ARITY compares the per-posting shape written by tfEncoder/locEncoder (2 uvarints; byte-count prefix + 4 uvarints per location) with readFreqNormHasLocs, skipFreqNormReadHasLocs, readLocation, the location loop of nextAtOrAfter and the skip in currChunkNext. READER-FLAG-GUARD computes interprocedurally which iterator methods need includeLocs/includeFreqNorm and proves no exported method reaches an unguarded decoder use. ITER-END proves the clean fast path is entered only under postings == nil || postings.postings == ActualBM (boolean abstraction; ReplaceActual can change ActualBM at any time), every return of the 1-hit branch leaves the hit consumed, every Actual.Next() is behind HasNext(), Count subtracts |postings ∩ except| for both encodings, and exclusions are applied as AndNot into a fresh bitmap. REPLAY-COUNT checks that the replay counter of the clean path is reset by comparing chunk numbers of postings, not the loaded chunk. LENPREFIX-AGREE, CHUNK-AGREE (reader side), ONEHIT-AWARE, CACHE-COHERENT and STATE-AFTER-FALLIBLE cover the prefix, chunk index, encoding dispatch and chunk switching the navigation relies on.",
+		Explanation: "ENTRY-ARITY compares the per-posting shape written by tfEncoder/locEncoder (2 uvarints; byte-count prefix + 4 uvarints per location) with readFreqNormHasLocs, skipFreqNormReadHasLocs, readLocation, the location loop of nextAtOrAfter and the skip in currChunkNext. READER-FLAG-GUARD computes interprocedurally which iterator methods need includeLocs/includeFreqNorm and proves no exported method reaches an unguarded decoder use. ITER-END proves the clean fast path is entered only under postings == nil || postings.postings == ActualBM (boolean abstraction; ReplaceActual can change ActualBM at any time), every return of the 1-hit branch leaves the hit consumed, every Actual.Next() is behind HasNext(), Count subtracts |postings ∩ except| for both encodings, and exclusions are applied as AndNot into a fresh bitmap. REPLAY-COUNT checks that the replay counter of the clean path is reset by comparing chunk numbers of postings, not the loaded chunk. LENPREFIX-AGREE, CHUNK-AGREE (reader side), ONEHIT-AWARE, CACHE-COHERENT and STATE-AFTER-FALLIBLE cover the prefix, chunk index, encoding dispatch and chunk switching the navigation relies on. REUSED-POSTING shows every field of the Posting the iterator reuses is stored in the current call on each path that hands it out.",
 		NotCovered:  "which posting is returned by Next/Advance for a given call history, the skip counting across chunks beyond the operands of its reset test (sameChunkNexts arithmetic), lock-step advance of the two cursors under exclusions (values)",
-		Uses:        []RuleUse{{"ENTRY-ARITY", ""}, {"READER-FLAG-GUARD", ""}, {"ITER-END", ""}, {"REPLAY-COUNT", ""}, {"LENPREFIX-AGREE", ""}, {"CHUNK-AGREE", ""}, {"ONEHIT-AWARE", ""}, {"CACHE-COHERENT", ""}, {"STATE-AFTER-FALLIBLE", ""}},
+		Uses:        []RuleUse{{"ENTRY-ARITY", ""}, {"READER-FLAG-GUARD", ""}, {"ITER-END", ""}, {"REPLAY-COUNT", ""}, {"REUSED-POSTING", ""}, {"LENPREFIX-AGREE", ""}, {"CHUNK-AGREE", ""}, {"ONEHIT-AWARE", ""}, {"CACHE-COHERENT", ""}, {"STATE-AFTER-FALLIBLE", ""}},
 	})
 }
